@@ -47,7 +47,8 @@ def _arange(x, size, start, stop, step, arange_dtype, block_id=None):
     i = block_id[0]
     blockstart = start + (i * size * step)
     blockstop = start + ((i + 1) * size * step)
-    return nxp.arange(blockstart, min(blockstop, stop), step, dtype=arange_dtype)
+    blockstop = min(blockstop, stop) if step > 0 else max(blockstop, stop)
+    return nxp.arange(blockstart, blockstop, step, dtype=arange_dtype)
 
 
 def asarray(
